@@ -230,7 +230,7 @@ End Sem.
 Arguments heap {gstate value}. Arguments hist {gstate value}. Arguments ticks {gstate value}.
 Arguments srcs {gstate value}. Arguments failed {gstate value}.
 Arguments decide {value req}. Arguments stop {value req}. Arguments request {value req}.
-Arguments HNone {gstate}. Arguments HInt {gstate}. Arguments HGlobObj {gstate}. Arguments HBad {gstate}.
+Arguments HNone {gstate}. Arguments HInt {gstate}. Arguments HInst {gstate}. Arguments HGlobObj {gstate}. Arguments HBad {gstate}.
 Arguments o_hist {gstate value}. Arguments o_failed {gstate value}. Arguments o_inst {gstate value}. Arguments o_srcs {gstate value}.
 
 (* ------------------------------------------------------------------ histories of one process *)
@@ -259,8 +259,8 @@ Fixpoint run_hist (h : list event) (g : gstate) (insts : list gstate)
   : list (option (outcome gstate value)) * gstate * list gstate :=
   match h with
   | [] => ([], g, insts)
-  | ECall I sk a :: r =>
-      let (o, g1) := call gstate value req draw seed idenv I sk (resolve a insts) g in
+  | ECall ip sk a :: r =>
+      let (o, g1) := call gstate value req draw seed idenv ip sk (resolve a insts) g in
       let '(os, g2, i2) := run_hist r g1 (writeback a o insts) in (Some o :: os, g2, i2)
   | EEnv f :: r => let '(os, g2, i2) := run_hist r (f g) insts in (None :: os, g2, i2)
   | ENew s :: r => let '(os, g2, i2) := run_hist r g (insts ++ [seed s]) in (None :: os, g2, i2)
@@ -289,10 +289,9 @@ Record opts := { o_shape : list nat;   (* tensor shape (number of modes = number
 Definition order (o : opts) := length (o_shape o).
 Definition rep (n : nat) (b : skel) : skel := For 0 n b.
 
-(* As of /repo HEAD these two call sites do NOT pass random_state on to svd_interface
-   (genuine defects, see Props/C16.v *_refuted); flip to [true] once repaired. *)
-Definition cp_svd_init_threads_seed : bool := false.
-Definition parafac2_svd_threads_seed : bool := false.
+(* Two call sites did not pass random_state on to svd_interface (found by this check; repaired by
+   /repo commits 5ba9482 and 20fd4fd).  [true] = the repaired code (modelled), [false] = the old code,
+   kept only for the documented *_old_rule_refuted examples of Props/C16.v. *)
 
 (* tensorly/random/base.py *)
 Definition sk_random_tensor : skel := Seq Check (Draw 1).
@@ -311,7 +310,7 @@ Definition sk_svd_interface (m : svdk) (mask : bool) (nrep : nat) : skel :=
   Seq (sk_svd_fun m) (if mask then rep nrep (sk_svd_fun m) else Skip).
 
 (* tensorly/decomposition/_cp.py *)
-Definition sk_initialize_cp (o : opts) : skel :=
+Definition sk_initialize_cp_gen (cp_svd_init_threads_seed : bool) (o : opts) : skel :=
   Seq Check
     (match o_init o with
      | IRandom => Call ARng (sk_random_cp (order o))
@@ -320,14 +319,16 @@ Definition sk_initialize_cp (o : opts) : skel :=
                                        (if Nat.ltb d (o_rank o) then Draw 1 else Skip)) (o_shape o))
      | IUser => Skip
      end).
+Definition sk_initialize_cp := sk_initialize_cp_gen true.
 Definition sk_parafac (o : opts) : skel := Seq (Call ARaw (sk_initialize_cp o)) (rep (o_iters o) Skip).
+Definition sk_parafac_old (o : opts) : skel := Seq (Call ARaw (sk_initialize_cp_gen false o)) (rep (o_iters o) Skip).
 Definition sk_sample_khatri_rao (n : nat) : skel := Seq Check (rep n (Draw 3)).
 Definition sk_randomised_parafac (o : opts) : skel :=
   Seq Check (Seq (Call ARaw (sk_initialize_cp o))
                  (For 1 (o_iters o) (rep (order o) (Call ARng (sk_sample_khatri_rao (order o - 1)))))).
 
 (* tensorly/decomposition/_constrained_cp.py (random branch repaired by commit ec93052) *)
-Definition sk_initialize_constrained (o : opts) : skel :=
+Definition sk_initialize_constrained_gen (cp_svd_init_threads_seed : bool) (o : opts) : skel :=
   Seq Check
     (match o_init o with
      | IRandom => Call ARng (sk_random_cp (order o))
@@ -336,6 +337,7 @@ Definition sk_initialize_constrained (o : opts) : skel :=
                                        (if Nat.ltb d (o_rank o) then Draw 1 else Skip)) (o_shape o))
      | IUser => Skip
      end).
+Definition sk_initialize_constrained := sk_initialize_constrained_gen true.
 Definition sk_constrained_parafac (o : opts) : skel := Seq (Call ARaw (sk_initialize_constrained o)) (For 1 (o_iters o) Skip).
 (* the random branch before ec93052: three module-level draws *)
 Definition sk_constrained_parafac_old (o : opts) : skel := Seq Check (rep (order o) (DrawNp 1)).
@@ -353,17 +355,25 @@ Definition sk_partial_tucker (o : opts) : skel :=
 Definition sk_tucker (o : opts) : skel := Call ARaw (sk_partial_tucker o).
 Definition sk_nn_tucker (o : opts) : skel := Seq (Call ARaw (sk_initialize_tucker o)) (For 1 (o_iters o) Skip).
 
-(* tensorly/decomposition/_parafac2.py *)
-Definition p2arg : argexp := if parafac2_svd_threads_seed then ARaw else ANone.
-Definition sk_compute_projections (o : opts) : skel := rep (o_aux o) (Call p2arg (sk_svd_interface (o_svd o) false 0)).
+(* tensorly/decomposition/_parafac2.py (after 20fd4fd: rng = check_random_state(random_state) once, threaded everywhere) *)
+Definition sk_compute_projections (o : opts) : skel := rep (o_aux o) (Call ARaw (sk_svd_interface (o_svd o) false 0)).
 Definition sk_parafac2 (o : opts) : skel :=
+  Seq Check
+ (Seq (Call ARng (match o_init o with
+                  | IRandom => Call ARaw (sk_random_parafac2 (o_aux o))
+                  | ISvd => Seq (Call ARaw (sk_svd_interface (o_svd o) false 0)) (Call ARaw (sk_compute_projections o))
+                  | IUser => Skip
+                  end))
+      (For 1 (o_iters o) (Seq (Call ARng (sk_compute_projections o))
+                              (Call ARaw (Seq (Call ARaw (Seq Check Skip)) Skip))))).   (* parafac(init=(w,f), random_state=random_state) *)
+(* before 20fd4fd: the SVDs of the initialisation and of every projection step got no random_state *)
+Definition sk_parafac2_old (o : opts) : skel :=
   Seq (match o_init o with
        | IRandom => Call ARaw (sk_random_parafac2 (o_aux o))
-       | ISvd => Seq (Call p2arg (sk_svd_interface (o_svd o) false 0)) (sk_compute_projections o)
+       | ISvd => Seq (Call ANone (sk_svd_interface (o_svd o) false 0)) (rep (o_aux o) (Call ANone (sk_svd_interface (o_svd o) false 0)))
        | IUser => Skip
        end)
-      (For 1 (o_iters o) (Seq (sk_compute_projections o)
-                              (Call ARaw (Seq (Call ARaw (Seq Check Skip)) Skip)))).   (* parafac(init=(w,f), random_state=random_state) *)
+      (For 1 (o_iters o) (rep (o_aux o) (Call ANone (sk_svd_interface (o_svd o) false 0)))).
 
 (* tensorly/decomposition/_tr_als.py, contrib/decomposition/_tt_cross.py *)
 Definition sk_tr_als (o : opts) : skel := Seq Check (Seq (Call ARng (sk_random_tr (order o))) (For 1 (o_iters o) Skip)).
@@ -426,17 +436,6 @@ Fixpoint skeleton (e : ep) (o : opts) : skel :=
   | E_estimator e' => Call ARaw (skeleton e' o)
   | E_rng_free => Skip
   | E_power_iteration => sk_power_iteration o
-  end.
-
-(* the configurations whose skeleton is affected by the two open defects *)
-Definition hits_open_defect (e : ep) (o : opts) : bool :=
-  let fix base (e : ep) : ep := match e with E_estimator e' => base e' | _ => e end in
-  match base e, o_init o, o_svd o with
-  | (E_initialize_cp | E_parafac | E_nn_parafac | E_nn_parafac_hals | E_constrained_parafac | E_randomised_parafac), ISvd, SRandomized =>
-      negb cp_svd_init_threads_seed
-  | E_parafac2, IUser, SRandomized => negb parafac2_svd_threads_seed && negb (Nat.eqb (o_iters o * o_aux o) 0)
-  | E_parafac2, _, SRandomized => negb parafac2_svd_threads_seed
-  | _, _, _ => false
   end.
 
 (* ------------------------------------------------------------------ an executable toy generator *)
